@@ -1,6 +1,6 @@
 // C16 — lazy.Eval: trampolined evaluation is faithful, stack-safe and run-once.
 //
-// Four kinds of batches (see layout()):
+// Six kinds of batches (see layout()):
 //
 //	tree  : PRNG expression trees over Done/Call/TailCall/TailCall1..9/Func1..3/Map/FlatMap/Map2
 //	        (methods and package functions) are evaluated by the library and by a strict
@@ -13,6 +13,16 @@
 //	        whole lazy lists traversed twice).
 //	conc  : the same targets shared by 2..32 goroutines released by a barrier, PRNG-chosen
 //	        runtime.Gosched() yields; these batches run in the -race build (Config.RaceBatch).
+//	dag   : expression DAGs — Eval VALUES bound once and used as sub-expression / extended by
+//	        Map, FlatMap, Map2 several times (shared base with 0..20 pending continuations),
+//	        built and evaluated in PRNG order, every binding evaluated at least twice (Get and
+//	        lazy.Run), earlier-built extensions again after later ones were built; the strict
+//	        interpreter evaluates the same DAG. An Eval is an immutable description: extending
+//	        or evaluating one value must never change what another one evaluates to.
+//	concdag : one shared base extended / evaluated by 2..32 goroutines at once (-race build).
+//
+// Discipline for everything built here: every value is used at least twice and earlier
+// results are looked at again after later uses.
 package main
 
 import (
@@ -49,10 +59,34 @@ const (
 	kFlatMapM  // Eval.FlatMap
 	kFlatMapF  // lazy.FlatMap
 	kMap2      // lazy.Map2
+	kRef       // DAG cases only: an Eval value bound earlier, used (again) as a sub-expression
 	nKinds
 )
 
-var kindNames = [nKinds]string{"Done", "Done(arg)", "Call", "FuncN", "TailCall", "TailCallN", "Eval.Map", "lazy.Map", "Eval.FlatMap", "lazy.FlatMap", "lazy.Map2"}
+var kindNames = [nKinds]string{"Done", "Done(arg)", "Call", "FuncN", "TailCall", "TailCallN", "Eval.Map", "lazy.Map", "Eval.FlatMap", "lazy.FlatMap", "lazy.Map2", "shared-ref"}
+
+// siteOf names the library call site of the outermost operation of an expression.
+func siteOf(kind int) string {
+	switch kind {
+	case kDone, kArg:
+		return "lazy.Done"
+	case kCall:
+		return "lazy.Call"
+	case kFuncN:
+		return "lazy.FuncN"
+	case kTailCall:
+		return "lazy.TailCall"
+	case kTailCallN:
+		return "lazy.TailCallN"
+	case kMapM:
+		return "lazy.Eval.Map"
+	case kFlatMapM:
+		return "lazy.Eval.FlatMap"
+	case kRef:
+		return "lazy.Eval"
+	}
+	return kindNames[kind]
+}
 
 type enode struct {
 	kind int
@@ -60,6 +94,7 @@ type enode struct {
 	n    int   // arity for TailCallN / FuncN
 	args []int // arguments for TailCallN / FuncN
 	mode int   // FlatMap: 0 = continuation builds kid1 with env=v, 1 = v odd ? kid1 : kid2
+	ref  int   // kRef: index of the binding
 	kids []*enode
 }
 
@@ -79,6 +114,8 @@ func (n *enode) write(b *strings.Builder) {
 		fmt.Fprintf(b, "Call(arg*3+%d)", n.k)
 	case kFuncN:
 		fmt.Fprintf(b, "Func%d%v", n.n, n.args)
+	case kRef:
+		fmt.Fprintf(b, "v%d", n.ref)
 	case kTailCallN:
 		fmt.Fprintf(b, "TailCall%d%v(", n.n, n.args)
 		n.kids[0].write(b)
@@ -110,9 +147,24 @@ func mixArgs(v int, a []int) int {
 	return r
 }
 
-// strict is the reference: direct evaluation of the tree, no laziness.
+// sctx is the reference: direct evaluation of the expression, no laziness. In DAG cases vals
+// holds the values of the bindings evaluated so far (sharing is irrelevant for values), cost
+// the number of node visits one evaluation of that binding performs with every shared
+// sub-expression expanded (the bound for the logical clock of the library run).
+type sctx struct {
+	hits   *[nKinds]int64
+	vals   []int
+	cost   []int64
+	visits int64
+}
+
 func strict(n *enode, env int, hits *[nKinds]int64) int {
-	hits[n.kind]++
+	return (&sctx{hits: hits}).eval(n, env)
+}
+
+func (s *sctx) eval(n *enode, env int) int {
+	s.hits[n.kind]++
+	s.visits++
 	switch n.kind {
 	case kDone:
 		return n.k
@@ -122,22 +174,25 @@ func strict(n *enode, env int, hits *[nKinds]int64) int {
 		return callFn(n.k, env)
 	case kFuncN:
 		return mixArgs(n.k, n.args)
+	case kRef:
+		s.visits += s.cost[n.ref]
+		return s.vals[n.ref]
 	case kTailCall:
-		return strict(n.kids[0], env, hits)
+		return s.eval(n.kids[0], env)
 	case kTailCallN:
-		return mixArgs(strict(n.kids[0], env, hits), n.args)
+		return mixArgs(s.eval(n.kids[0], env), n.args)
 	case kMapM, kMapF:
-		return mapFn(n.k, strict(n.kids[0], env, hits))
+		return mapFn(n.k, s.eval(n.kids[0], env))
 	case kFlatMapM, kFlatMapF:
-		v := strict(n.kids[0], env, hits)
+		v := s.eval(n.kids[0], env)
 		next := n.kids[1]
 		if n.mode == 1 && v&1 == 0 {
 			next = n.kids[2]
 		}
-		return strict(next, v, hits)
+		return s.eval(next, v)
 	case kMap2:
-		a := strict(n.kids[0], env, hits)
-		b := strict(n.kids[1], env, hits)
+		a := s.eval(n.kids[0], env)
+		b := s.eval(n.kids[1], env)
 		return map2Fn(n.k, a, b)
 	}
 	panic("bad kind")
@@ -149,7 +204,15 @@ type cell struct {
 }
 
 type tctx struct {
-	cells []*cell
+	cells  []*cell
+	bound  []lazy.Eval[int] // DAG cases: the Eval VALUE of every binding, built exactly once
+	budget *vrt.Budget      // DAG cases: logical clock ticked by every user callback
+}
+
+func (c *tctx) tick() {
+	if c.budget != nil {
+		c.budget.Tick()
+	}
 }
 
 func (c *tctx) cell(name string) *cell {
@@ -188,41 +251,46 @@ func tailCallN(n int, a []int, body func(a []int) lazy.Eval[int]) lazy.Eval[int]
 	panic("bad arity")
 }
 
-// build constructs the library Eval for the tree.
+// build constructs the library Eval for the expression. A kRef node is the Eval value that
+// was built for the binding — the same value at every use, never rebuilt.
 func build(c *tctx, n *enode, env int) lazy.Eval[int] {
 	switch n.kind {
 	case kDone:
 		return lazy.Done(n.k)
 	case kArg:
 		return lazy.Done(env + n.k)
+	case kRef:
+		return c.bound[n.ref]
 	case kCall:
 		x := c.cell("Call")
-		return lazy.Call(func() int { x.n++; return callFn(n.k, env) })
+		return lazy.Call(func() int { c.tick(); x.n++; return callFn(n.k, env) })
 	case kFuncN:
 		x := c.cell("Func" + strconv.Itoa(n.n))
 		switch n.n {
 		case 1:
-			return lazy.Func1(func(a int) int { x.n++; return mixArgs(n.k, []int{a}) })(n.args[0])
+			return lazy.Func1(func(a int) int { c.tick(); x.n++; return mixArgs(n.k, []int{a}) })(n.args[0])
 		case 2:
-			return lazy.Func2(func(a, b int) int { x.n++; return mixArgs(n.k, []int{a, b}) })(n.args[0], n.args[1])
+			return lazy.Func2(func(a, b int) int { c.tick(); x.n++; return mixArgs(n.k, []int{a, b}) })(n.args[0], n.args[1])
 		default:
-			return lazy.Func3(func(a, b, d int) int { x.n++; return mixArgs(n.k, []int{a, b, d}) })(n.args[0], n.args[1], n.args[2])
+			return lazy.Func3(func(a, b, d int) int { c.tick(); x.n++; return mixArgs(n.k, []int{a, b, d}) })(n.args[0], n.args[1], n.args[2])
 		}
 	case kTailCall:
 		x := c.cell("TailCall")
-		return lazy.TailCall(func() lazy.Eval[int] { x.n++; return build(c, n.kids[0], env) })
+		return lazy.TailCall(func() lazy.Eval[int] { c.tick(); x.n++; return build(c, n.kids[0], env) })
 	case kTailCallN:
 		x := c.cell("TailCall" + strconv.Itoa(n.n))
 		return tailCallN(n.n, n.args, func(a []int) lazy.Eval[int] {
+			c.tick()
 			x.n++
 			return build(c, n.kids[0], env).Map(func(v int) int { return mixArgs(v, a) })
 		})
 	case kMapM:
-		return build(c, n.kids[0], env).Map(func(v int) int { return mapFn(n.k, v) })
+		return build(c, n.kids[0], env).Map(func(v int) int { c.tick(); return mapFn(n.k, v) })
 	case kMapF:
-		return lazy.Map(build(c, n.kids[0], env), func(v int) int { return mapFn(n.k, v) })
+		return lazy.Map(build(c, n.kids[0], env), func(v int) int { c.tick(); return mapFn(n.k, v) })
 	case kFlatMapM, kFlatMapF:
 		cont := func(v int) lazy.Eval[int] {
+			c.tick()
 			next := n.kids[1]
 			if n.mode == 1 && v&1 == 0 {
 				next = n.kids[2]
@@ -234,7 +302,7 @@ func build(c *tctx, n *enode, env int) lazy.Eval[int] {
 		}
 		return lazy.FlatMap(build(c, n.kids[0], env), cont)
 	case kMap2:
-		return lazy.Map2(build(c, n.kids[0], env), build(c, n.kids[1], env), func(a, b int) int { return map2Fn(n.k, a, b) })
+		return lazy.Map2(build(c, n.kids[0], env), build(c, n.kids[1], env), func(a, b int) int { c.tick(); return map2Fn(n.k, a, b) })
 	}
 	panic("bad kind")
 }
@@ -245,6 +313,18 @@ type tgen struct {
 	maxDepth int
 	deferred bool // a Call/TailCall* node exists below a FlatMap/Map2
 	depthMax int
+	// DAG cases: bindings 0..nbound-1 may be used as sub-expressions (kRef leaves); hub is
+	// the binding preferred for re-use. nbound == 0 (tree cases) draws nothing extra.
+	nbound int
+	hub    int
+}
+
+func (g *tgen) refNode() *enode {
+	j := g.hub
+	if j >= g.nbound || g.r.IntN(3) == 0 {
+		j = g.r.IntN(g.nbound)
+	}
+	return &enode{kind: kRef, ref: j}
 }
 
 func (g *tgen) gen(depth int, underBind bool) *enode {
@@ -256,6 +336,9 @@ func (g *tgen) gen(depth int, underBind bool) *enode {
 	leaf := g.budget <= 0 || depth >= g.maxDepth || r.IntN(5) == 0
 	n := &enode{k: r.IntN(19) - 9}
 	if leaf {
+		if g.nbound > 0 && r.IntN(3) == 0 {
+			return g.refNode()
+		}
 		switch r.IntN(5) {
 		case 0:
 			n.kind = kDone
@@ -328,6 +411,9 @@ func runTreeCase(w *vrt.W, i int) {
 	root := g.gen(0, false)
 	env0 := r.IntN(7) - 3
 	reps := 1 + r.IntN(3)
+	if reps == 1 { // every value is requested at least twice
+		reps = 2
+	}
 	desc := root.String()
 	wit := func() any { return map[string]any{"tree": desc, "env": env0, "gets": reps} }
 	w.Begin(i, "lazy.Eval.Get/tree")
@@ -378,6 +464,331 @@ func runTreeCase(w *vrt.W, i int) {
 }
 
 // ======================================================================================
+// (1b) expression DAGs: Eval values bound once, used and extended several times
+// ======================================================================================
+
+// A DAG case is a list of bindings v0..v(m-1). The expression of vj may use earlier bindings
+// as sub-expressions (kRef); the library side builds the Eval VALUE of each binding exactly
+// once and every use is that same value. Most bindings are direct extensions of one "hub"
+// binding (Map / FlatMap / first or second operand of Map2, method and package-function
+// forms) followed by a chain of further pending continuations; the hub itself carries a chain
+// of 0..20 pending continuations. Building and evaluating are interleaved by a PRNG schedule;
+// every binding is evaluated at least twice, by Get or lazy.Run, and all of them again after
+// the last one was built. An Eval is an immutable description: whatever was built from it
+// later, every binding must keep evaluating to the value of strict evaluation.
+
+type dagOp struct {
+	op byte // 'b' build, 'g' Get, 'r' lazy.Run
+	j  int
+}
+
+type dagCase struct {
+	binds  []*enode
+	ops    []dagOp
+	spine  []int   // pending continuations on the outermost spine of binding j
+	direct [][]int // bindings directly extended by binding j (at build time or inside a continuation)
+	extBy  []int   // how many extension sites use binding j as their base
+	refs   int
+}
+
+var extNames = []string{"Eval.Map(v)", "lazy.Map(v)", "Eval.FlatMap(v)", "lazy.FlatMap(v)", "lazy.Map2(v,x)", "lazy.Map2(x,v)", "lazy.Map2(v,v)", "alias-then-chain"}
+
+func chainLen(r *rand.Rand) int {
+	switch r.IntN(4) {
+	case 0:
+		return r.IntN(4)
+	default:
+		return r.IntN(21)
+	}
+}
+
+// wrap puts one more pending continuation on top of e.
+func (g *tgen) wrap(e *enode) *enode {
+	r := g.r
+	n := &enode{k: r.IntN(19) - 9}
+	switch r.IntN(6) {
+	case 0, 1:
+		n.kind = kMapM
+		n.kids = []*enode{e}
+	case 2:
+		n.kind = kMapF
+		n.kids = []*enode{e}
+	default:
+		n.kind = kFlatMapM
+		if r.IntN(3) == 0 {
+			n.kind = kFlatMapF
+		}
+		n.kids = []*enode{e, g.small()}
+	}
+	return n
+}
+
+// small: a leaf or a tiny expression (possibly using shared bindings).
+func (g *tgen) small() *enode {
+	sub := &tgen{r: g.r, budget: 1 + g.r.IntN(4), maxDepth: 1 + g.r.IntN(2), nbound: g.nbound, hub: g.hub}
+	return sub.gen(0, true)
+}
+
+func genDag(r *rand.Rand) *dagCase {
+	m := 3 + r.IntN(6)
+	d := &dagCase{}
+	hub := 0
+	for j := 0; j < m; j++ {
+		g := &tgen{r: r, nbound: j, hub: hub}
+		var e *enode
+		L := chainLen(r)
+		switch {
+		case j == 0:
+			g.budget, g.maxDepth = 1+r.IntN(5), 1+r.IntN(3)
+			e = g.gen(0, false)
+		case r.IntN(10) < 7:
+			ref := g.refNode()
+			k := r.IntN(19) - 9
+			switch x := r.IntN(len(extNames)); x {
+			case 0:
+				e = &enode{kind: kMapM, k: k, kids: []*enode{ref}}
+			case 1:
+				e = &enode{kind: kMapF, k: k, kids: []*enode{ref}}
+			case 2, 3:
+				e = &enode{kind: kFlatMapM, k: k, kids: []*enode{ref, g.small()}}
+				if x == 3 {
+					e.kind = kFlatMapF
+				}
+			case 4:
+				e = &enode{kind: kMap2, k: k, kids: []*enode{ref, g.small()}}
+			case 5:
+				e = &enode{kind: kMap2, k: k, kids: []*enode{g.small(), ref}}
+			case 6:
+				e = &enode{kind: kMap2, k: k, kids: []*enode{ref, &enode{kind: kRef, ref: ref.ref}}}
+			default:
+				e = ref
+				if L == 0 {
+					L = 1
+				}
+			}
+			if r.IntN(3) != 0 { // most extensions stay short
+				L = r.IntN(3)
+				if e.kind == kRef {
+					L++
+				}
+			}
+		default:
+			g.budget, g.maxDepth = 2+r.IntN(10), 1+r.IntN(4)
+			e = g.gen(0, false)
+		}
+		for x := 0; x < L; x++ {
+			e = g.wrap(e)
+		}
+		d.binds = append(d.binds, e)
+		if j > 0 && r.IntN(6) == 0 { // sometimes move the hub to a later binding
+			hub = j
+		}
+	}
+	// schedule: builds in order, evaluations of already built bindings in between, then
+	// every binding 2..3 more times in PRNG order
+	for j := 0; j < m; j++ {
+		d.ops = append(d.ops, dagOp{'b', j})
+		if j >= 1 {
+			for t := r.IntN(3); t > 0; t-- {
+				d.ops = append(d.ops, dagOp{'g', r.IntN(j + 1)})
+			}
+		}
+	}
+	var tail []dagOp
+	for j := 0; j < m; j++ {
+		for t := 2 + r.IntN(2); t > 0; t-- {
+			tail = append(tail, dagOp{'g', j})
+		}
+	}
+	r.Shuffle(len(tail), func(a, b int) { tail[a], tail[b] = tail[b], tail[a] })
+	d.ops = append(d.ops, tail...)
+	for k := range d.ops {
+		if d.ops[k].op == 'g' && r.IntN(3) == 0 {
+			d.ops[k].op = 'r'
+		}
+	}
+	// structure census
+	d.spine = make([]int, m)
+	d.direct = make([][]int, m)
+	d.extBy = make([]int, m)
+	for j, e := range d.binds {
+		d.spine[j] = d.spineLen(e)
+		d.census(j, e)
+	}
+	return d
+}
+
+func (d *dagCase) spineLen(n *enode) int {
+	switch n.kind {
+	case kMapM, kMapF, kFlatMapM, kFlatMapF, kMap2:
+		return 1 + d.spineLen(n.kids[0])
+	case kTailCall, kTailCallN:
+		return 1
+	case kRef:
+		return d.spine[n.ref]
+	}
+	return 0
+}
+
+func (d *dagCase) census(j int, n *enode) {
+	if n.kind == kRef {
+		d.refs++
+	}
+	ext := func(k *enode) {
+		if k.kind == kRef {
+			d.extBy[k.ref]++
+			d.direct[j] = append(d.direct[j], k.ref)
+		}
+	}
+	switch n.kind {
+	case kMapM, kMapF, kFlatMapM, kFlatMapF:
+		ext(n.kids[0])
+	case kMap2:
+		ext(n.kids[0])
+		ext(n.kids[1]) // extended by Map when the continuation of Map2 runs
+	}
+	for _, k := range n.kids {
+		d.census(j, k)
+	}
+}
+
+func (d *dagCase) String() string {
+	var b strings.Builder
+	for j, e := range d.binds {
+		fmt.Fprintf(&b, "v%d = ", j)
+		e.write(&b)
+		b.WriteString("; ")
+	}
+	b.WriteString("schedule:")
+	for _, o := range d.ops {
+		fmt.Fprintf(&b, " %c%d", o.op, o.j)
+	}
+	return b.String()
+}
+
+func contains(l []int, v int) bool {
+	for _, x := range l {
+		if x == v {
+			return true
+		}
+	}
+	return false
+}
+
+var dagHits [nKinds]int64
+
+func runDagCase(w *vrt.W, i int) {
+	r := w.Rand(i)
+	d := genDag(r)
+	env0 := r.IntN(7) - 3
+	m := len(d.binds)
+	desc := d.String()
+	wit := func() any { return map[string]any{"dag": desc, "env": env0} }
+	// reference first: values and evaluation cost of every binding
+	var hits [nKinds]int64
+	sc := &sctx{hits: &hits, vals: make([]int, 0, m), cost: make([]int64, 0, m)}
+	for _, e := range d.binds {
+		sc.visits = 0
+		v := sc.eval(e, env0)
+		sc.vals = append(sc.vals, v)
+		sc.cost = append(sc.cost, sc.visits)
+	}
+	evals, lateEvals, interleaved := 0, 0, 0
+	nontrivial := false
+	w.Begin(i, "lazy.Eval.Get/dag")
+	w.Guard(i, wit, func() {
+		c := &tctx{}
+		built := 0
+		evalCount := make([]int, m)
+		for _, o := range d.ops {
+			if o.op == 'b' {
+				w.Site(siteOf(d.binds[o.j].kind) + "/dag")
+				c.budget = nil
+				c.bound = append(c.bound, build(c, d.binds[o.j], env0))
+				built++
+				continue
+			}
+			site := siteOf(d.binds[o.j].kind)
+			w.Site(site + "/dag")
+			c.budget = vrt.NewBudget(16*sc.cost[o.j]+256, "user callbacks during one evaluation of a shared Eval")
+			var got int
+			if o.op == 'g' {
+				got = c.bound[o.j].Get()
+			} else {
+				got = lazy.Run(c.bound[o.j])
+			}
+			c.budget = nil
+			evals++
+			evalCount[o.j]++
+			if built < m {
+				interleaved++
+			}
+			late := false
+			for _, h := range d.direct[o.j] {
+				for y := o.j + 1; y < built; y++ {
+					if contains(d.direct[y], h) {
+						late = true
+					}
+				}
+			}
+			if late {
+				lateEvals++
+				if evalCount[o.j] >= 2 {
+					nontrivial = true
+				}
+			}
+			if got != sc.vals[o.j] {
+				how := "Get"
+				if o.op == 'r' {
+					how = "lazy.Run"
+				}
+				w.Violation(i, site+"/shared-eval-value", fmt.Sprintf("%s of v%d (evaluation #%d of it, %d of %d bindings built) = %d, strict evaluation = %d\nv%d = %s\nprogram: %s (arg=%d)",
+					how, o.j, evalCount[o.j], built, m, got, sc.vals[o.j], o.j, d.binds[o.j], desc, env0), wit())
+				return
+			}
+		}
+		executed := int64(0)
+		for _, x := range c.cells {
+			if x.n > 1 {
+				w.Violation(i, "lazy."+x.name+"/executed-more-than-once", fmt.Sprintf("a %s thunk ran %d times in a program with shared Eval values (%d evaluations)\nprogram: %s", x.name, x.n, evals, desc), wit())
+				return
+			}
+			executed += int64(x.n)
+		}
+		w.Add("dag.thunks_created", int64(len(c.cells)))
+		w.Add("dag.thunks_executed", executed)
+	})
+	w.Done(i)
+	for k, h := range hits {
+		dagHits[k] += h
+	}
+	w.Add("dag.cases", 1)
+	w.Add("dag.bindings", int64(m))
+	w.Add("dag.shared_uses", int64(d.refs))
+	w.Add("dag.evaluations", int64(evals))
+	w.Add("dag.evaluations_before_all_built", int64(interleaved))
+	w.Add("dag.earlier_extension_evaluated_after_later_one_built", int64(lateEvals))
+	for j := 0; j < m; j++ {
+		if d.extBy[j] >= 2 {
+			w.Add("dag.bases_extended_twice_or_more", 1)
+			w.Max("dag.max_extensions_of_one_base", int64(d.extBy[j]))
+			w.Max("dag.max_pending_on_shared_base", int64(d.spine[j]))
+			if d.spine[j] <= 20 {
+				w.Hit("dag.pending_on_shared_base/" + strconv.Itoa(d.spine[j]))
+			} else {
+				w.Hit("dag.pending_on_shared_base/>20")
+			}
+		}
+	}
+	if nontrivial {
+		w.Distinct("dag:" + desc + "@" + strconv.Itoa(env0))
+		if w.WantSample() && len(desc) < 500 {
+			w.Sample(map[string]any{"kind": "dag", "program": desc, "arg": env0, "values": sc.vals})
+		}
+	}
+}
+
+// ======================================================================================
 // (2) tail-recursive programs: frames inside the thunks
 // ======================================================================================
 
@@ -385,6 +796,29 @@ type sampler struct {
 	total, base, max int
 	samples          int64
 	pcs              [600]uintptr
+	// second evaluation of the same Eval value (small n only)
+	again, first, second int
+}
+
+// twice evaluates e and, where the memoised chain of n steps fits in memory, evaluates the
+// same value a second time: every value the check builds is used at least twice.
+func twice(e lazy.Eval[int], n int, s *sampler, run bool) int {
+	var got int
+	if run {
+		got = lazy.Run(e)
+	} else {
+		got = e.Get()
+	}
+	if n <= 100000 {
+		s.again++
+		s.first = got
+		if run {
+			s.second = e.Get()
+		} else {
+			s.second = lazy.Run(e)
+		}
+	}
+	return got
 }
 
 func (s *sampler) sample(rem int) {
@@ -494,7 +928,7 @@ func rotProg(N int) prog {
 		}
 		want := weighted(ref)
 		e := tailCallN(N, init, step)
-		return e.Get(), want
+		return twice(e, n, s, false), want
 	}}
 }
 
@@ -503,12 +937,12 @@ func programs() []prog {
 		{name: "count-down/TailCall", site: "lazy.TailCall", run: func(n int, s *sampler) (int, int) {
 			s.base = runtime.Callers(0, s.pcs[:])
 			e := countDown(n, s)
-			return e.Get(), 42
+			return twice(e, n, s, false), 42
 		}},
 		{name: "accumulator-sum/TailCall2", site: "lazy.TailCall2", run: func(n int, s *sampler) (int, int) {
 			s.base = runtime.Callers(0, s.pcs[:])
 			e := accSum{s}.sum(n, 0)
-			return e.Get(), n * (n + 1) / 2
+			return twice(e, n, s, false), n * (n + 1) / 2
 		}},
 		{name: "mutual-even-odd/TailCall1", site: "lazy.TailCall1", run: func(n int, s *sampler) (int, int) {
 			s.base = runtime.Callers(0, s.pcs[:])
@@ -517,12 +951,12 @@ func programs() []prog {
 			if n%2 == 1 {
 				want = 0
 			}
-			return e.Get(), want
+			return twice(e, n, s, false), want
 		}},
 		{name: "bind-in-tail-position/FlatMap+TailCall1", site: "lazy.Eval.FlatMap", run: func(n int, s *sampler) (int, int) {
 			s.base = runtime.Callers(0, s.pcs[:])
 			e := bindLoop{s}.loop(n)
-			return lazy.Run(e), -7
+			return twice(e, n, s, true), -7
 		}},
 	}
 	for N := 1; N <= 9; N++ {
@@ -564,6 +998,9 @@ func runDepthCase(w *vrt.W, p prog, i int, large bool) {
 		if got != want {
 			w.Violation(i, p.site+"/tail-recursion-result", fmt.Sprintf("%s at n=%d evaluates to %d, the plain loop gives %d", p.name, n, got, want), wit())
 		}
+		if s.again > 0 && s.second != s.first {
+			w.Violation(i, p.site+"/second-evaluation-differs", fmt.Sprintf("%s at n=%d: the first evaluation of the Eval gives %d, a second evaluation of the same value %d", p.name, n, s.first, s.second), wit())
+		}
 		if s.max > frameBound {
 			w.Violation(i, p.site+"/stack-grows-with-depth", fmt.Sprintf("%s at n=%d: %d frames observed inside a thunk above the frame that called Get (bound %d, independent of n)", p.name, n, s.max, frameBound), wit())
 		}
@@ -573,6 +1010,7 @@ func runDepthCase(w *vrt.W, p prog, i int, large bool) {
 	w.Add("depth.cases", 1)
 	w.Add("depth.frame_samples", s.samples)
 	w.Add("depth.steps", int64(n))
+	w.Add("depth.evaluated_twice", int64(s.again))
 	w.Max("frames.n<="+strconv.Itoa(ds[di]), int64(s.max))
 	w.Max("frames.program."+p.name, int64(s.max))
 	w.Distinct("depth:" + p.name + ":" + strconv.Itoa(n))
@@ -1085,18 +1523,241 @@ func runConcList(w *vrt.W, i int, r *rand.Rand, g int, pre []int, thunkYields in
 	}
 }
 
+// ---- concurrent: one shared Eval extended and evaluated by several goroutines -------------
+
+type chainStep struct {
+	kind int // kMapM, kMapF, kFlatMapM, kFlatMapF
+	k    int
+}
+
+func applySteps(e lazy.Eval[int], steps []chainStep) lazy.Eval[int] {
+	for _, st := range steps {
+		k := st.k
+		switch st.kind {
+		case kMapM:
+			e = e.Map(func(v int) int { return mapFn(k, v) })
+		case kMapF:
+			e = lazy.Map(e, func(v int) int { return mapFn(k, v) })
+		case kFlatMapM:
+			e = e.FlatMap(func(v int) lazy.Eval[int] { return lazy.Done(mapFn(k, v)) })
+		default:
+			e = lazy.FlatMap(e, func(v int) lazy.Eval[int] { return lazy.Call(func() int { return mapFn(k, v) }) })
+		}
+	}
+	return e
+}
+
+func stepsValue(v int, steps []chainStep) int {
+	for _, st := range steps {
+		v = mapFn(st.k, v)
+	}
+	return v
+}
+
+func genSteps(r *rand.Rand, n int) []chainStep {
+	out := make([]chainStep, n)
+	for x := range out {
+		out[x] = chainStep{kind: []int{kMapM, kMapF, kFlatMapM, kFlatMapF}[r.IntN(4)], k: r.IntN(19) - 9}
+	}
+	return out
+}
+
+var concExtNames = []string{"Eval.Map(base)", "lazy.Map(base)", "Eval.FlatMap(base)", "lazy.FlatMap(base)", "lazy.Map2(base,other)", "lazy.Map2(other,base)", "lazy.Map2(base,base)",
+	"Get(base)", "Get(shared Map2(base,other))", "Get(shared extension)"}
+
+// runConcDagCase: a base Eval (leaf + 0..20 pending continuations) and a second value are
+// built before the barrier; every goroutine either extends the base itself and evaluates its
+// own extension, or evaluates a value all of them share (the base, a Map2 over base and other,
+// an extension built before the barrier). Values must equal plain arithmetic, the Call thunk
+// under the base runs at most once, and the race detector must stay silent inside fp.
+func runConcDagCase(w *vrt.W, i int) {
+	r := w.Rand(i)
+	g := 2 + r.IntN(7)
+	if r.IntN(4) == 0 {
+		g = 2 + r.IntN(31)
+	}
+	pre := make([]int, g)
+	for k := range pre {
+		pre[k] = r.IntN(4)
+	}
+	if r.IntN(3) == 0 {
+		for k := range pre {
+			pre[k] = 0
+		}
+	}
+	L := r.IntN(21)
+	steps := genSteps(r, L)
+	otherSteps := genSteps(r, r.IntN(21))
+	leaf := r.IntN(3)
+	leafV := r.IntN(100)
+	otherV := r.IntN(100)
+	thunkYields := r.IntN(5)
+	ext := make([]int, g)
+	extK := make([]int, g)
+	extMore := make([][]chainStep, g)
+	reqs := make([]int, g)
+	for id := 0; id < g; id++ {
+		ext[id] = r.IntN(len(concExtNames))
+		extK[id] = r.IntN(19) - 9
+		extMore[id] = genSteps(r, r.IntN(3))
+		reqs[id] = 1 + r.IntN(2)
+	}
+	leafNames := []string{"Done", "Call", "TailCall(Call)"}
+	wit := func() any {
+		names := make([]string, g)
+		for id := range names {
+			names[id] = concExtNames[ext[id]]
+		}
+		return map[string]any{"base_leaf": leafNames[leaf], "pending_on_base": L, "pending_on_other": len(otherSteps), "goroutines": g, "each_goroutine": names,
+			"yields_before": pre, "yields_in_thunk": thunkYields, "requests": reqs}
+	}
+	overlapped := false
+	w.Begin(i, "lazy.Eval/shared-base-concurrent")
+	w.Guard(i, wit, func() {
+		var runs atomic.Int32
+		obs := &roundObs{}
+		thunk := func() int {
+			runs.Add(1)
+			for y := 0; y < thunkYields; y++ {
+				runtime.Gosched()
+			}
+			atomicMax(&obs.inThunk, obs.inside.Load())
+			return leafV
+		}
+		var base lazy.Eval[int]
+		switch leaf {
+		case 0:
+			base = lazy.Done(leafV)
+		case 1:
+			base = lazy.Call(thunk)
+		default:
+			base = lazy.TailCall(func() lazy.Eval[int] { return lazy.Call(thunk) })
+		}
+		base = applySteps(base, steps)
+		baseV := stepsValue(leafV, steps)
+		other := applySteps(lazy.Done(otherV), otherSteps)
+		otherW := stepsValue(otherV, otherSteps)
+		sharedK := 3
+		shared2 := lazy.Map2(base, other, func(a, b int) int { return map2Fn(sharedK, a, b) })
+		sharedExt := base.Map(func(v int) int { return mapFn(sharedK, v) })
+		want := make([]int, g)
+		results := make([][]int, g)
+		for id := range results {
+			results[id] = make([]int, reqs[id])
+		}
+		panics := release(g, pre, obs, func(id int) {
+			k := extK[id]
+			var e lazy.Eval[int]
+			switch ext[id] {
+			case 0:
+				e = base.Map(func(v int) int { return mapFn(k, v) })
+			case 1:
+				e = lazy.Map(base, func(v int) int { return mapFn(k, v) })
+			case 2:
+				e = base.FlatMap(func(v int) lazy.Eval[int] { return lazy.Done(mapFn(k, v)) })
+			case 3:
+				e = lazy.FlatMap(base, func(v int) lazy.Eval[int] { return lazy.Done(mapFn(k, v)) })
+			case 4:
+				e = lazy.Map2(base, other, func(a, b int) int { return map2Fn(k, a, b) })
+			case 5:
+				e = lazy.Map2(other, base, func(a, b int) int { return map2Fn(k, a, b) })
+			case 6:
+				e = lazy.Map2(base, base, func(a, b int) int { return map2Fn(k, a, b) })
+			case 7:
+				e = base
+			case 8:
+				e = shared2
+			default:
+				e = sharedExt
+			}
+			e = applySteps(e, extMore[id])
+			for q := range results[id] {
+				if q&1 == 0 {
+					results[id][q] = e.Get()
+				} else {
+					results[id][q] = lazy.Run(e)
+				}
+				if q+1 < len(results[id]) {
+					runtime.Gosched()
+				}
+			}
+		})
+		for id := 0; id < g; id++ {
+			k := extK[id]
+			var v int
+			switch ext[id] {
+			case 0, 1, 2, 3:
+				v = mapFn(k, baseV)
+			case 4:
+				v = map2Fn(k, baseV, otherW)
+			case 5:
+				v = map2Fn(k, otherW, baseV)
+			case 6:
+				v = map2Fn(k, baseV, baseV)
+			case 7:
+				v = baseV
+			case 8:
+				v = map2Fn(sharedK, baseV, otherW)
+			default:
+				v = mapFn(sharedK, baseV)
+			}
+			want[id] = stepsValue(v, extMore[id])
+		}
+		if len(panics) > 0 {
+			w.Violation(i, "lazy.Eval/shared-base-concurrent/panic", "panic in a goroutine extending / evaluating a shared Eval: "+panics[0], wit())
+			return
+		}
+		overlapped = recordOverlap(w, obs, g)
+		if n := runs.Load(); n > 1 {
+			w.Violation(i, "lazy.Call/executed-more-than-once-concurrently", fmt.Sprintf("the Call thunk under a shared base ran %d times while %d goroutines extended and evaluated the base", n, g), wit())
+			return
+		}
+		for id := range results {
+			for q, v := range results[id] {
+				if v != want[id] {
+					w.Violation(i, "lazy.Eval/shared-base-concurrent-value", fmt.Sprintf("goroutine %d (%s) evaluation #%d = %d, plain arithmetic gives %d (base has %d pending continuations, %d goroutines)",
+						id, concExtNames[ext[id]], q+1, v, want[id], L, g), wit())
+					return
+				}
+			}
+		}
+		// the values shared by everybody are still what they were
+		if v := base.Get(); v != baseV {
+			w.Violation(i, "lazy.Eval/shared-base-concurrent-value", fmt.Sprintf("the shared base evaluates to %d after the round, plain arithmetic gives %d", v, baseV), wit())
+			return
+		}
+		if v := lazy.Run(sharedExt); v != mapFn(sharedK, baseV) {
+			w.Violation(i, "lazy.Eval/shared-base-concurrent-value", fmt.Sprintf("the extension built before the round evaluates to %d afterwards, plain arithmetic gives %d", v, mapFn(sharedK, baseV)), wit())
+			return
+		}
+	})
+	w.Done(i)
+	for id := 0; id < g; id++ {
+		w.Hit("concdag/" + concExtNames[ext[id]])
+	}
+	w.Hit("concdag.pending_on_base/" + strconv.Itoa(L))
+	w.Add("concdag.rounds", 1)
+	if overlapped {
+		w.Add("concdag.rounds_with_overlap", 1)
+		w.Distinct(fmt.Sprintf("concdag:%d:%d:%v:%v:%v:%d", leaf, L, ext, pre, reqs, thunkYields))
+		if w.WantSample() {
+			w.Sample(map[string]any{"kind": "concurrent-shared-base", "case": wit()})
+		}
+	}
+}
+
 // ======================================================================================
 // layout
 // ======================================================================================
 
-type layoutT struct{ tree, depth, seq, conc int }
+type layoutT struct{ tree, depth, seq, conc, dag, concdag int }
 
 func layout(tier string) layoutT {
 	np := len(programs())
 	if tier == "thorough" {
-		return layoutT{tree: 32, depth: np, seq: 4, conc: 16}
+		return layoutT{tree: 32, depth: np, seq: 4, conc: 16, dag: 16, concdag: 8}
 	}
-	return layoutT{tree: 8, depth: np, seq: 2, conc: 8}
+	return layoutT{tree: 8, depth: np, seq: 2, conc: 8, dag: 8, concdag: 4}
 }
 
 func batchKind(tier string, b int) (kind string, k int) {
@@ -1113,8 +1774,16 @@ func batchKind(tier string, b int) (kind string, k int) {
 		return "conc", b
 	case b < l.conc+l.tree:
 		return "tree", b - l.conc
+	case b < l.conc+l.tree+l.seq:
+		return "seq", b - l.conc - l.tree
 	}
-	return "seq", b - l.conc - l.tree
+	// the DAG families were added later: they come last so that the batch numbers (and with
+	// them the PRNG streams) of the older families did not move
+	b -= l.conc + l.tree + l.seq
+	if b < l.dag {
+		return "dag", b
+	}
+	return "concdag", b - l.dag
 }
 
 func main() {
@@ -1122,7 +1791,7 @@ func main() {
 		Property: "C16",
 		Batches: func(tier string) int {
 			l := layout(tier)
-			return l.tree + 2*l.depth + l.seq + l.conc
+			return l.tree + 2*l.depth + l.seq + l.conc + l.dag + l.concdag
 		},
 		Cases: func(tier string, b int) int {
 			kind, _ := batchKind(tier, b)
@@ -1142,6 +1811,16 @@ func main() {
 					return 6000
 				}
 				return 1500
+			case "dag":
+				if th {
+					return 5000
+				}
+				return 1000
+			case "concdag":
+				if th {
+					return 1500
+				}
+				return 300
 			}
 			if th {
 				return 1500
@@ -1150,7 +1829,7 @@ func main() {
 		},
 		RaceBatch: func(tier string, b int) bool {
 			kind, _ := batchKind(tier, b)
-			return kind == "conc"
+			return kind == "conc" || kind == "concdag"
 		},
 		WorkerProcs: 8,
 		Run: func(w *vrt.W) {
@@ -1167,6 +1846,10 @@ func main() {
 					runSeqCase(w, i)
 				case "conc":
 					runConcCase(w, i)
+				case "dag":
+					runDagCase(w, i)
+				case "concdag":
+					runConcDagCase(w, i)
 				}
 			}
 			for k, h := range treeHits {
@@ -1174,13 +1857,19 @@ func main() {
 					w.Add("hit.tree/"+kindNames[k], h)
 				}
 			}
+			for k, h := range dagHits {
+				if h > 0 {
+					w.Add("hit.dag/"+kindNames[k], h)
+				}
+			}
 		},
-		Rule: "Four case families. (a) tree: PRNG lazy.Eval[int] expression tree (3..40 nodes, depth <= 10) over Done, Call, Func1..3, TailCall, TailCall1..9, Eval.Map/lazy.Map, Eval.FlatMap/lazy.FlatMap (continuation builds a subtree from the bound value, optionally branching on its parity), lazy.Map2; Get (1..3 times, sometimes lazy.Run) is compared with a strict recursive interpreter and every Call/TailCall*/FuncN wrapper created has its own execution counter (<= 1). (b) depth: one of 13 tail-recursive programs (count-down via TailCall, accumulator sum via TailCall2, mutual even/odd via TailCall1, bind in tail position, argument rotation through each of TailCall1..9) at n in {10^3, ~10^4, ~10^5, ~10^6, 2*10^6 [, ~10^7, 2*10^7 thorough]}; runtime.Callers frame count is sampled inside the thunks (first 1024 steps, every 1024th, last 64) relative to the frame calling Get, bound 64 for every n. (c) seq: a counting thunk wrapped by lazy.Call/TailCall/TailCall3/Memoize/Func1, fp.Memoize, fn1.Memoize, derived Evals sharing one Call/TailCall, fp.MakeList head/tail, list.Generate/list.Map cells is requested 2..7 times; whole lazy lists (Generate, Map, Map over Generate, Recurrence1, Scan, Collect, Combine) are traversed 2..4 times from the same root with per-index source counters. (d) conc (race build, GOMAXPROCS 8): the same targets shared by 2..32 goroutines released by a barrier with PRNG-chosen Gosched yields before the request and inside the thunk. distinct_nontrivial counts distinct fingerprints of: trees that contain a deferred node (Call/FuncN/TailCall*) under a FlatMap/Map2 binder and have depth >= 2; (program, n) depth cases; seq cases (target, requests, base) and list traversals with >= 2 elements; concurrent rounds in which at least two goroutines were observed inside Get at the same time.",
+		Rule: "Six case families. (a) tree: PRNG lazy.Eval[int] expression tree (3..40 nodes, depth <= 10) over Done, Call, Func1..3, TailCall, TailCall1..9, Eval.Map/lazy.Map, Eval.FlatMap/lazy.FlatMap (continuation builds a subtree from the bound value, optionally branching on its parity), lazy.Map2; Get (2..3 times, sometimes lazy.Run) is compared with a strict recursive interpreter and every Call/TailCall*/FuncN wrapper created has its own execution counter (<= 1). (b) depth: one of 13 tail-recursive programs (count-down via TailCall, accumulator sum via TailCall2, mutual even/odd via TailCall1, bind in tail position, argument rotation through each of TailCall1..9) at n in {10^3, ~10^4, ~10^5, ~10^6, 2*10^6 [, ~10^7, 2*10^7 thorough]} (for n <= 10^5 the same Eval value is evaluated a second time and must give the same result); runtime.Callers frame count is sampled inside the thunks (first 1024 steps, every 1024th, last 64) relative to the frame calling Get, bound 64 for every n. (c) seq: a counting thunk wrapped by lazy.Call/TailCall/TailCall3/Memoize/Func1, fp.Memoize, fn1.Memoize, derived Evals sharing one Call/TailCall, fp.MakeList head/tail, list.Generate/list.Map cells is requested 2..7 times; whole lazy lists (Generate, Map, Map over Generate, Recurrence1, Scan, Collect, Combine) are traversed 2..4 times from the same root with per-index source counters. (d) conc (race build, GOMAXPROCS 8): the same targets shared by 2..32 goroutines released by a barrier with PRNG-chosen Gosched yields before the request and inside the thunk. (e) dag: 3..8 bindings v0..vm; the expression of a binding may use earlier bindings as sub-expressions (the library side builds the Eval value of a binding once, every use is that same value); v0 carries a chain of 0..20 pending Map/FlatMap continuations, most later bindings are direct extensions of a preferred (hub) binding through Eval.Map, lazy.Map, Eval.FlatMap, lazy.FlatMap, lazy.Map2 (as first, second, or both operands) or an alias followed by a chain; a PRNG schedule interleaves building with Get / lazy.Run of already built bindings, then evaluates every binding 2..3 more times in PRNG order; every evaluation is compared with the strict interpreter of the same DAG, every Call/TailCall*/FuncN wrapper created runs at most once, a logical clock over all user callbacks bounds every evaluation. (f) concdag (race build): a base (Done / Call / TailCall(Call) + 0..20 pending continuations), an independent second value, a Map2 over both and one extension are built before the barrier; 2..32 goroutines each extend the base (the seven extension forms) and evaluate their own extension 1..2 times, or evaluate one of the shared values; values are compared with plain arithmetic, the Call thunk runs at most once, base and the pre-built extension are evaluated again after the round. distinct_nontrivial counts distinct fingerprints of: trees that contain a deferred node (Call/FuncN/TailCall*) under a FlatMap/Map2 binder and have depth >= 2; (program, n) depth cases; seq cases (target, requests, base) and list traversals with >= 2 elements; concurrent rounds in which at least two goroutines were observed inside Get at the same time; DAG cases in which a binding that directly extends a shared base was evaluated at least twice after a later-built binding extending the same base existed; concdag rounds with at least two goroutines overlapping.",
 		Assumptions: []string{
 			"schedules explored are those produced by the Go scheduler with GOMAXPROCS=8 plus PRNG-chosen runtime.Gosched() yields; not all interleavings",
 			"the race detector reports only races that occur on an executed schedule",
 			"stack use is measured as the runtime.Callers frame count inside user thunks (sampled: first 1024 steps, every 1024th step, last 64 steps); library-internal recursion between two thunk invocations that unwinds before the next thunk is only caught by the 64 MB stack limit",
 			"trees are over Eval[int]; Eval is monomorphic in its value type so other instantiations run the same code",
+			"DAG cases bind Eval values at the top level of a case only (continuations use bound values but do not bind new shared ones); sharing is irrelevant for the value of strict evaluation, so the reference evaluates each binding once and re-uses the number",
 		},
 		Floors: func(tier string) map[string]int64 {
 			f := map[string]int64{
@@ -1190,8 +1879,23 @@ func main() {
 				"conc.rounds": 1500, "conc.list_rounds": 200, "conc.rounds_with_overlap": 500, "conc.rounds_with_waiters_during_thunk": 100,
 				"distinct": 5000,
 			}
-			for _, n := range kindNames {
-				f["hit.tree/"+n] = 500
+			for k, n := range kindNames {
+				if k != kRef {
+					f["hit.tree/"+n] = 500
+				}
+				f["hit.dag/"+n] = 5000
+			}
+			for k, v := range map[string]int64{"dag.cases": 6000, "dag.bases_extended_twice_or_more": 5000, "dag.shared_uses": 40000, "dag.evaluations": 80000,
+				"dag.evaluations_before_all_built": 10000, "dag.earlier_extension_evaluated_after_later_one_built": 20000, "dag.thunks_executed": 100000,
+				"concdag.rounds": 1000, "concdag.rounds_with_overlap": 500, "depth.evaluated_twice": int64(3 * len(programs()))} {
+				f[k] = v
+			}
+			for L := 0; L <= 20; L++ {
+				f["hit.dag.pending_on_shared_base/"+strconv.Itoa(L)] = 100
+				f["hit.concdag.pending_on_base/"+strconv.Itoa(L)] = 20
+			}
+			for _, n := range concExtNames {
+				f["hit.concdag/"+n] = 200
 			}
 			for _, p := range programs() {
 				f["hit.depth/"+p.name] = int64(len(depths(tier)))
@@ -1237,6 +1941,10 @@ func main() {
 			cov["max_goroutines_overlapped_in_get"] = m.Maxes["conc.max_goroutines_overlapped_in_get"]
 			cov["max_callers_in_get_while_thunk_ran"] = m.Maxes["conc.max_callers_in_get_while_thunk_ran"]
 			cov["concurrent_rounds"] = m.Counters["conc.rounds"]
+			cov["dag_cases"] = m.Counters["dag.cases"]
+			cov["dag_shared_bases_extended_twice_or_more"] = m.Counters["dag.bases_extended_twice_or_more"]
+			cov["dag_max_pending_continuations_on_a_shared_base"] = m.Maxes["dag.max_pending_on_shared_base"]
+			cov["concurrent_shared_base_rounds"] = m.Counters["concdag.rounds"]
 			cov["race_reports_inside_fp"] = m.Counters["race.reports_total"] - m.Counters["race.reports_outside_fp"]
 		},
 	})
